@@ -235,7 +235,7 @@ def main(chk):
             break
     for i, exp in expect_at.items():
         imp = res[i]["impl"]
-        if not (imp["kind"] == "value" and imp.get("out") == exp):
+        if not (imp["kind"] == "value" and norm_err_msgs(imp.get("out")) == norm_err_msgs(exp)):
             viol.append(("binding rule violated (%s): expected output %r, implementation gave %r %s" % (
                 cases[i][0], exp, imp.get("out"), (imp.get("errk"), imp.get("errmsg")) if imp["kind"] == "error" else ""),
                 {"program": cases[i][1], "expected_out": exp, "impl": imp}, "C03:" + cases[i][0]))
